@@ -374,7 +374,11 @@ C12_STRINGS = ["a = 1; a", "1", "1.5", '"s"', "true", "(1,2)", "()", "", "a", "b
                "a += 1", "a + b", "f(a)", "g(1,2)", "h(1)", "a = 5", "q = 1; q", "q", "9223372036854775807", "2^62",
                "1/0", "a; b; c", "a,b", "y == (1,2)", "c + \"z\"", "!x", "-a", "\"", "1e400", "0x10", "a = \"s\"",
                "f g h 1", "max(1, 2.5)", "min(4.0, 3)", "len(c)", "typeof(z)", "a /* c */ + 1", "1;", ";", ",",
-               "x && false", "a % 2 == 1", "str::from(y)", "math::sqrt(16)", "if(x, a, b)"]
+               "x && false", "a % 2 == 1", "str::from(y)", "math::sqrt(16)", "if(x, a, b)",
+               # strings a wrapper might be tempted to pre-process or to parse by itself
+               "+5", "-5", " 7 ", "\t7\n", "-9223372036854775808", "9223372036854775808", "+1.5", "-0.0", " true ", "TRUE", "007",
+               "1_000", "0x10 ", "-0x10", "1e3", "+1e3", "inf", "-inf", "nan", " \"s\" ", "\"\"", "()", " ( ) ", "(1,)", "1,", "(,)",
+               "5;", "5 ;", ";5", " ", "\n", "\u3000", "1 // c", "/* c */ 1", "true ", "- 5", "--5", "!true", "! true"]
 
 
 def c12_case(kind, setup, src):
